@@ -29,6 +29,9 @@ type cfg struct {
 	Roots  [][]int `json:"roots"` // nil => New; else NewWithData (untracked elements >= 100)
 	// NoMerge > 0: enumerate every history up to this depth without merging states.
 	NoMerge int `json:"unmerged_depth,omitempty"`
+	// Ties > 1: the order looks at value/Ties only, so distinct elements tie
+	// in groups of Ties.
+	Ties int `json:"priority_is_value_div,omitempty"`
 }
 
 type counters struct{ swapsReported, interiorRemove, setReports int64 }
@@ -48,9 +51,15 @@ type inst struct {
 // The two orders are method values of ONE method bound to different receivers:
 // different function values that share a code pointer (an implementation that
 // compares function identity by code pointer must not take them for the same).
-type order struct{ desc bool }
+type order struct {
+	desc bool
+	div  int
+}
 
 func (o order) compare(a, b int) int {
+	if o.div > 1 {
+		a, b = a/o.div, b/o.div
+	}
 	if o.desc {
 		return b - a
 	}
@@ -58,11 +67,20 @@ func (o order) compare(a, b int) int {
 }
 
 var (
-	asc = order{false}.compare
-	dsc = order{true}.compare
+	asc = order{false, 0}.compare
+	dsc = order{true, 0}.compare
+	// the same orders on value/4: distinct elements that tie
+	ascT = order{false, 4}.compare
+	dscT = order{true, 4}.compare
 )
 
 func (s *inst) cmp() func(a, b int) int {
+	if s.c.Ties > 1 {
+		if s.desc {
+			return dscT
+		}
+		return ascT
+	}
 	if s.desc {
 		return dsc
 	}
@@ -538,6 +556,10 @@ func main() {
 			res2 := makeBFS(deep, &cnt).Run(r)
 			flat := &cfg{V: 3, N: 3, SetLen: 1, Roots: [][]int{nil, {100}}, NoMerge: mc.Pick(r, 5, 6)}
 			res3 := makeBFS(flat, &cnt).Run(r)
+			// distinct elements that tie under the order (priority = value/4)
+			ties := &cfg{V: 8, N: mc.Pick(r, 5, 6), SetLen: 0, Roots: [][]int{nil}, Ties: 4}
+			res4 := makeBFS(ties, &cnt).Run(r)
+			r.Bound("tie_configuration", fmt.Sprintf("8 distinct elements ordered by value/4 (two groups of four that tie), up to %d held, no Set: %d states", ties.N, res4.States))
 			r.Bound("unmerged_configuration", fmt.Sprintf("3 values, up to 3 elements: every history up to depth %d without state merging: %d histories", flat.NoMerge, res3.States))
 			r.Bound("deeper_configuration", fmt.Sprintf("%d distinct values, up to %d elements, no Set: %d states", deep.V, deep.N, res2.States))
 			r.Bound("distinct_values", c.V)
